@@ -14,6 +14,16 @@
          maybe_changed_after
      R <k> <rev> <idx> <val>
          field read through a handle: expected value id
+     U <k> <rev> <val> <shard> <stamp> <fresh> <path> <idx> <gen> <lia> <dur> Q <q..> L <lru..> E
+         an intern_id that unwound out of the user's event callback after its commit point
+         (hook H5b `commit` / `touch` record without a final record): the model step is
+         Model.intern_cut .. CutCallback; same expectations as `I`, read at the commit point
+     A <k> <rev> Q <q..> E
+         an intern_id that unwound before any write but revision_queue.record (hook H5b
+         `abort` record): Model.intern_cut .. CutEarly
+     C <k> <rev> <idx> <gen> <lia> <dur> Q <q..> L <shard> <lru..> E
+         confirmation: the final record of a call whose commit record was already replayed;
+         no model step, the slot / queue / LRU must still be what the record says
    Output: one line per record, `OK n <events>` or `MISMATCH n <what>`; events are
    `intern:idx:gen:rev` `reuse:..` `validate:..` `clear:idx:oldgen` `leak:idx`. *)
 open Intern_model
@@ -127,8 +137,8 @@ let () =
            let c = rust_cfg (if r = 0 then None else Some (n_of_int r)) in
            Hashtbl.replace insts (int_of_string k)
              { cfg = c; st = init c; shards = Hashtbl.create 64 }
-       | "I" :: k :: rev :: v :: shard :: stamp :: fresh :: path :: idx :: gen :: lia :: dur
-         :: "Q" :: rest ->
+       | (("I" | "U") as kind) :: k :: rev :: v :: shard :: stamp :: fresh :: path :: idx :: gen
+         :: lia :: dur :: "Q" :: rest ->
            incr n;
            let i = get (int_of_string k) in
            let q, rest = take_until [ "L" ] rest in
@@ -140,8 +150,12 @@ let () =
              if stamp = "-1" then Outside else InQuery (n_of_int (int_of_string stamp))
            in
            let (p, evs) =
-             step (shard_of i) i.cfg i.st
-               (OIntern (N0, n_of_int (int_of_string v), sp, n_of_int (int_of_string fresh)))
+             if kind = "I" then
+               step (shard_of i) i.cfg i.st
+                 (OIntern (N0, n_of_int (int_of_string v), sp, n_of_int (int_of_string fresh)))
+             else
+               intern_cut (shard_of i) i.cfg i.st (n_of_int (int_of_string v)) sp
+                 (n_of_int (int_of_string fresh)) CutCallback
            in
            let (st', out) = p in
            i.st <- st';
@@ -201,6 +215,44 @@ let () =
            else (
              incr bad;
              Printf.printf "MISMATCH %d %s | %s\n" !n (String.concat "; " (List.rev !errs)) evs_s)
+       | "A" :: k :: rev :: "Q" :: rest ->
+           incr n;
+           let i = get (int_of_string k) in
+           let q, _ = take_until [ "E" ] rest in
+           let errs = ref [] in
+           if not (advance i rev) then errs := "cannot reach revision" :: !errs;
+           let (p, _) = intern_cut (shard_of i) i.cfg i.st N0 Outside N0 CutEarly in
+           i.st <- fst p;
+           check errs "queue" (String.concat "," q) (list_s (st_queue i.st));
+           if !errs = [] then Printf.printf "OK %d\n" !n
+           else (
+             incr bad;
+             Printf.printf "MISMATCH %d %s\n" !n (String.concat "; " (List.rev !errs)))
+       | "C" :: k :: rev :: idx :: gen :: lia :: dur :: "Q" :: rest ->
+           incr n;
+           let i = get (int_of_string k) in
+           let q, rest = take_until [ "L" ] rest in
+           let shard, lru =
+             match rest with
+             | "L" :: sh :: r -> (sh, fst (take_until [ "E" ] r))
+             | _ -> ("0", [])
+           in
+           let errs = ref [] in
+           if not (advance i rev) then errs := "cannot reach revision" :: !errs;
+           (match slot_fields i (int_of_string idx) with
+            | None -> errs := "model has no such slot" :: !errs
+            | Some (_, sg, sl, sd) ->
+                check errs "gen" gen sg;
+                check errs "lia_after" (s_of_lia_tok lia) sl;
+                check errs "dur_after" dur sd);
+           check errs "queue" (String.concat "," q) (list_s (st_queue i.st));
+           check errs "lru" (String.concat "," lru)
+             (list_s (st_lru i.st (n_of_int (int_of_string shard))));
+           if !errs = [] then Printf.printf "OK %d\n" !n
+           else (
+             incr bad;
+             Printf.printf "MISMATCH %d confirmation: %s\n" !n
+               (String.concat "; " (List.rev !errs)))
        | "R" :: k :: rev :: idx :: v :: _ ->
            incr n;
            let i = get (int_of_string k) in
